@@ -6,8 +6,8 @@ C=/tmp/mut/repo-$P-$$; O=/tmp/mut/vout-$P-$$
 mkdir -p $C $O/out $O/evidence
 rsync -a --exclude '*.o' --exclude '*.lo' --exclude '*.la' --exclude '.libs' --exclude '.deps' --exclude 'tests' --exclude 'doc' --exclude 'demos' --exclude '.git' --exclude 'Watchdog/tests' /repo/ $C/
 (cd $C && patch -p1 -s < $D/patch.diff) || { echo "patch does not apply"; rm -rf $C $O; exit 2; }
-cd /verif && VERIF_REPO=$C VERIF_OUT=$O/out VERIF_EVID=$O/evidence VERIF_JOBS=${JOBS:-5} timeout ${TMO:-9000} bin/vcheck run $P --tier $T > /tmp/trymut2-$P-$T.log 2>&1; rc=$?
-echo "== $D on $P ($T, scratch copy): exit=$rc; $(grep -c '^VIOLATION' /tmp/trymut2-$P-$T.log) VIOLATION lines"
-grep "signature" /tmp/trymut2-$P-$T.log | sed 's/.*signature: //' | sort | uniq -c | sort -rn | head -8
-tail -1 /tmp/trymut2-$P-$T.log
-rm -rf $C $O
+cd /verif && VERIF_REPO=$C VERIF_OUT=$O/out VERIF_EVID=$O/evidence VERIF_JOBS=${JOBS:-5} timeout ${TMO:-9000} bin/vcheck run $P --tier $T > /tmp/trymut2-$(basename $D)-$P-$T.log 2>&1; rc=$?
+echo "== $D on $P ($T, scratch copy): exit=$rc; $(grep -c '^VIOLATION' /tmp/trymut2-$(basename $D)-$P-$T.log) VIOLATION lines"
+grep "signature" /tmp/trymut2-$(basename $D)-$P-$T.log | sed 's/.*signature: //' | sort | uniq -c | sort -rn | head -8
+tail -1 /tmp/trymut2-$(basename $D)-$P-$T.log
+[ -n "$KEEP" ] && { rm -rf $C; echo "kept $O"; } || rm -rf $C $O
